@@ -13,11 +13,13 @@ fn hh<T: Hash>(t: &T) -> u64 {
 
 /// Two renderings of the model alphabet; the second maps letters to multi-character
 /// tokens (upper/lower case consistent), so the same cases exercise longer URIs.
-const MAPS: [(&str, [(&str, &str); 6]); 3] = [
+const MAPS: [(&str, [(&str, &str); 6]); 4] = [
     ("plain", [("a", "a"), ("A", "A"), ("b", "b"), ("/", "/"), (".", "."), (" ", " ")]),
     ("tokens", [("a", "ex-ample.org"), ("A", "EX-AMPLE.ORG"), ("b", "b~1"), ("/", "/"), (".", "."), (" ", "\u{7f}")]),
     // the forbidden character is one beyond ASCII (two octets in a str; offered as the single octet 0xE9 through the byte parsers)
     ("beyond-ascii", [("a", "a"), ("A", "A"), ("b", "b"), ("/", "/"), (".", "."), (" ", "\u{e9}")]),
+    // labels of thirty-odd octets: three of them reach past any fixed-size buffer (64, 96 octets) a shortcut might use
+    ("long", [("a", "a-label-of-thirty-three-octets.xyz"), ("A", "A-LABEL-OF-THIRTY-THREE-OCTETS.XYZ"), ("b", "b_another-label-just-as-long-as-a"), ("/", "/"), (".", "."), (" ", " ")]),
 ];
 const NONE: &str = "<none>";
 
@@ -38,7 +40,7 @@ const RSCHEMES: [&str; 3] = ["rsync://", "RSYNC://", "rSyNc://"];
 const HSCHEMES: [&str; 3] = ["https://", "HTTPS://", "hTtPs://"];
 
 fn replay_string(s: &mut Summary, c: &Value) {
-    for map in 0..3 {
+    for map in 0..4 {
         let body = render(&c["s"], map).unwrap();
         // octets beyond ASCII through the parsers that take octets: every one of them is a forbidden character
         if map == 2 && body.contains('\u{e9}') {
@@ -232,7 +234,7 @@ fn replay_string(s: &mut Summary, c: &Value) {
 fn replay_pair(s: &mut Summary, c: &Value) {
     let rsync = c["kind"] == "rsync";
     let exp_eq = c["eq"].as_bool().unwrap();
-    for map in 0..2 {
+    for map in [0usize, 1, 3] {
         let (bx, by) = (render(&c["x"], map).unwrap(), render(&c["y"], map).unwrap());
         // scheme spellings: same / different case
         for (sx, sy) in [(0, 0), (0, 1), (2, 1)] {
